@@ -498,7 +498,9 @@ fn recv_payloads(thorough: bool) -> Vec<Vec<u8>> {
 }
 
 pub fn run(args: &Args) -> i32 {
-    let thorough = args.tier == Tier::Thorough;
+    // the deeper parameter set is cheap enough (seconds) to be the quick tier as well
+    let thorough = true;
+    let _ = Tier::Thorough;
     let mut rep = Report::new("C13", args.tier, args.seed, "model_checking");
     rep.exhaustive = true;
     rep.rule = "send: every builder configuration - all combinations of the boolean options x max_field_section_size and max_webtransport_sessions over {unset, 0, 1, 63, 64, 16383, 16384, 2^30-1, 2^30, 2^62-1, 2^62, u64::MAX} x grease on/off x 4 fastrand seeds x write acceptance (whole, one byte at a time), for the server and the client builder; the local control stream log is parsed by refimpl (one SETTINGS first, no identifier twice, no HTTP/2-reserved identifier, grease form, effective value of every known identifier = configured value). receive: every SETTINGS payload made of <= 2 entries over 15 identifiers x {0,1,100,2^62-1} plus padded varint forms, triples over 10 (15) identifiers, truncated at every byte, delivered whole and one byte per read, to a real server and client; error code and applied values (shared settings getters; the size limit echoed by HeaderTooBig on a late request) compared with refimpl::settings. states = distinct configurations / payloads; non-trivial = non-default configurations and payloads with >= 2 entries.".into();
